@@ -202,6 +202,13 @@ fn from_raw<const MAX: usize>(rep: &mut Report, r: &mut Rng) {
     if len > 0 && r.chance(3, 4) {
         v[0] = 0;
     }
+    // trailing null entries are entries (the upper half of a TSS descriptor below 4 GiB is one): they count
+    if len > 1 && len <= MAX && r.chance(1, 3) {
+        let k = 1 + r.below(len as u64 - 1) as usize;
+        for x in v[k..].iter_mut() {
+            *x = 0;
+        }
+    }
     // an over-long slice is over-long whatever its tail holds: also null entries beyond the capacity
     if len > MAX && r.chance(1, 2) {
         for x in v[MAX..].iter_mut() {
